@@ -55,6 +55,22 @@ fn plan_for(property: &str) -> Option<Plan> {
       params_quick: &[("max_ops", 12)],
       params_thorough: &[("max_ops", 12)],
     },
+    "C02" => Plan {
+      engine: "world",
+      level: "exploration",
+      quick_runs: 4_000,
+      thorough_runs: 500_000,
+      params_quick: &[],
+      params_thorough: &[],
+    },
+    "C03" => Plan {
+      engine: "world",
+      level: "exploration",
+      quick_runs: 4_000,
+      thorough_runs: 500_000,
+      params_quick: &[],
+      params_thorough: &[],
+    },
     "C04" => Plan {
       engine: "stor",
       level: "exploration",
